@@ -28,6 +28,16 @@ def fam_task(task):
     dis, viol, samples = [], [], []
     n = 0
     digests = set()
+    tagged = collections.Counter()
+
+    def add_viol(d):
+        f = d.get('finding')
+        if f:
+            tagged[f] += 1
+            if tagged[f] <= 2:
+                viol.append(d)
+        elif sum(1 for v in viol if not v.get('finding')) < 8:
+            viol.append(d)
     for _ in range(rounds):
         for sc in fam(rng):
             label, scripts, cache, cfg, exp = sc[:5]
@@ -39,8 +49,7 @@ def fam_task(task):
                 stats['direct'] += 1
                 if not exp:
                     stats['direct-fail'] += 1
-                    if len(viol) < 8:
-                        viol.append(dict(what='direct fact does not hold: ' + label, finding=finding))
+                    add_viol(dict(what='direct fact does not hold: ' + label, finding=finding))
                 digests.add(label)
                 continue
             st, iline, mline = tsh.compare_auth(model, scripts, cache, cfg)
@@ -52,17 +61,15 @@ def fam_task(task):
                 dis.append(dict(label=label, case=_case(scripts, cache, cfg), impl=iline[:600], model=mline[:600]))
             if exp is not None and v != exp:
                 stats['expectation-fail'] += 1
-                if len(viol) < 8:
-                    viol.append(dict(what='%s: run_auth_scripts gave %s, the property requires %s' % (label, v, exp),
-                                     case=_case(scripts, cache, cfg), finding=finding))
+                add_viol(dict(what='%s: run_auth_scripts gave %s, the property requires %s' % (label, v, exp),
+                              case=_case(scripts, cache, cfg), finding=finding))
             if explog is not None and explog != 'maybe':
                 log = iline.split(' | ')[5]
                 log = '' if log == '-' else log
                 if log != explog:
                     stats['log-fail'] += 1
-                    if len(viol) < 8:
-                        viol.append(dict(what='%s: leaf bodies that started %r, expected %r' % (label, log, explog),
-                                         case=_case(scripts, cache, cfg), finding=finding))
+                    add_viol(dict(what='%s: leaf bodies that started %r, expected %r' % (label, log, explog),
+                                  case=_case(scripts, cache, cfg), finding=finding))
             if len(samples) < 2:
                 samples.append(dict(label=label, case=_case(scripts, cache, cfg), impl=iline[:200]))
     # bytes of the real builders vs model/Builders.v (the definitions the builder theorems are about)
@@ -188,14 +195,20 @@ def c01_direct(scripts, cache_vals, cfg):
     tsh._Capture.depth = 0
     tr = AuthTrace()
     tr.install()
+    v = None
     try:
-        try:
-            v = F.run_auth_scripts(list(scripts), cache_vals, cfg.contract_objs(log), cfg.plugins(log),
-                                   cfg.max_items, cfg.max_item_size, cfg.limit)
-        except BaseException as e:
-            return ['run_auth_scripts raised ' + type(e).__name__]
+        with tsh.Watch():
+            try:
+                v = F.run_auth_scripts(list(scripts), cache_vals, cfg.contract_objs(log), cfg.plugins(log),
+                                       cfg.max_items, cfg.max_item_size, cfg.limit)
+            except tsh.ImplTimeout:
+                raise
+            except BaseException as e:
+                return ['run_auth_scripts raised ' + type(e).__name__]
     finally:
         tr.uninstall()
+    if tsh.Watch.fired or v is None:
+        return ['run_auth_scripts did not finish within the per-case watchdog']
     out = []
     if type(v) is not bool:
         out.append('run_auth_scripts returned a non-bool')
@@ -238,7 +251,11 @@ def c01_task(task):
     digests = set()
     contracts = vmstream.CONTRACTS
     ret = bytes([F.opcodes_inverse['OP_RETURN'][0]])
+    t0 = time.time()
     for i in range(n):
+        if time.time() - t0 > float(os.environ.get('VERIF_STREAM_BUDGET', '150')):
+            stats['stopped-on-time-budget'] += 1
+            break
         cfg = tsh.Cfg(max_items=rng.choice([1024, 1024, 8]), max_item_size=rng.choice([1024, 1024, 40]),
                       limit=rng.choice([128, 128, 4]), contracts=contracts,
                       sigext=rng.choice([(), (), (1,)]))
